@@ -97,7 +97,7 @@ def term_of(c, p):
         ex = [x for x in p['results'].get(t, []) if x[0] >= 5]
         wf += [(ex[i][1], ex[i + 1][1]) for i in range(0, len(ex) - 1, 2)]
     return '(EC %s %s %d%%nat %s %s %s %s %s %d %s %s %s)' % (
-        dv.zlit(c['w0']), 'true' if c['tmo'] else 'false', c['budget'] + 1,   # vsched reports 'done' when the last step is exactly the budget-th
+        dv.zlit(c['w0']), 'true' if c['tmo'] else 'false', ls_common.fuel_of(c['budget'], p['status']),   # vsched reports 'done' when the last step is exactly the budget-th
 
         dv.coq_list([dv.coq_list([op_coq(o) for o in pr]) for pr in c['progs']]),
         dv.coq_list([str(x) for x in c['sched']]),
